@@ -177,6 +177,7 @@ func (c *StructCase) tagArg() string {
 
 // build materialises the argument of the call.
 func (c *StructCase) build() reflect.Value {
+	c = c.expanded()
 	return desc.Build(desc.Type(c.Root), c.Val)
 }
 
